@@ -2,7 +2,7 @@ SPECIFICATION SpecMC
 CONSTANTS
   MaxDev = 1
   Depth = 2
-  EditOps = {"AddParagraph", "AddHeading", "AddImage", "AddHeader", "AddFooter", "AddListItem", "AddFootnote", "AddEndnote", "SetFootnoteConfig", "SetTitle", "SetAuthor", "UpdateStatistics", "GetDocumentProperties", "AddTable", "RemoveParagraphAt", "Save", "Reopen", "Render"}
+  EditOps = {"AddParagraph", "AddHeading", "AddImage", "AddHeader", "AddFooter", "AddListItem", "AddFootnote", "AddEndnote", "SetFootnoteConfig", "SetTitle", "GetDocumentProperties", "AddTable", "RemoveParagraphAt", "Save", "Reopen", "Render"}
   Dims = {"base", "extra", "scheme", "ext", "media", "ns", "pkgns", "tgstyle", "pkgids", "cont", "blk", "xrel", "mix", "mixin", "sty", "sdef", "sref", "bytes", "zip", "place"}
   ImgFmts = {"png"}
   ImgNames = {"ext"}
